@@ -140,6 +140,10 @@ class AabbTree:
         overlap_pairs : array, shape (n, 2)
             An array of all overlapping pairs.
         """
+        if self.root == INDEX_NONE or other.root == INDEX_NONE:
+            # An empty tree overlaps with nothing (and has no row to index).
+            return False, np.empty(0, dtype=int), np.empty(0, dtype=int), []
+
         (
             overlap_tetrahedron1,
             overlap_tetrahedron2,
@@ -174,6 +178,10 @@ class AabbTree:
             IMPORTANT: These indices may differ from order the aabbs where added to the tree.
             Use these indices to index the external data and insert index lists.
         """
+        if self.root == INDEX_NONE:
+            # An empty tree overlaps with nothing (and has no row to index).
+            return False, np.empty(0, dtype=int)
+
         overlaps = query_overlap(aabb, self.root, self.nodes, self.aabbs)
 
         return len(overlaps) > 0, overlaps
